@@ -8,6 +8,7 @@ import (
 	"io/fs"
 	"math/rand/v2"
 	"path/filepath"
+	"strings"
 	"syscall"
 )
 
@@ -241,7 +242,7 @@ func runDBHistory(work string, idx int, p *dbProfile, in DBInput, r *rand.Rand, 
 		}
 	} else {
 		forced := forcedSequences(r, p)
-		for len(in.Ops) < length {
+		for len(in.Ops) < length && !env.hung {
 			var st DBStep
 			if len(forced) > 0 {
 				st, forced = forced[0], forced[1:]
@@ -281,6 +282,19 @@ func runDBHistory(work string, idx int, p *dbProfile, in DBInput, r *rand.Rand, 
 	rec := Record{Kind: "history", Input: in, Obs: obs, Key: string(cb) + string(kb),
 		Coq: coqCase(in, obs), Nontrivial: p.Nontrivial == nil || p.Nontrivial(in, obs)}
 	rec.Tags = historyTags(in, obs)
+	if env.hung {
+		hungHistories++
+		for i, o := range obs {
+			if strings.Contains(o.Note, "hang: the handle did not answer") {
+				rec.Direct = &DirectVerdict{OK: false, What: sprintf("step %d (%s %s): after this call returned, the database handle no longer answers (a list call did not return within %s) - a lock was kept", i, in.Ops[i].Kind, in.Ops[i].NameQ, dbCallTimeout)}
+				break
+			}
+			if strings.HasPrefix(o.Res.Err, "HANG") {
+				rec.Direct = &DirectVerdict{OK: false, What: sprintf("step %d (%s %s): the call did not return within %s - the database handle is deadlocked", i, in.Ops[i].Kind, in.Ops[i].NameQ, dbCallTimeout)}
+				break
+			}
+		}
+	}
 	return rec
 }
 
@@ -369,6 +383,9 @@ func runDBProfile(o Opts, p *dbProfile, post func(rec *Record, in DBInput, obs [
 	}
 	var selfSrc []Record
 	for i := 0; i < n; i++ {
+		if hungHistories >= 8 {
+			break // every further history would cost its time-outs and say the same
+		}
 		r := NewRand(o.Seed, uint64(1000+i))
 		length := p.MinLen + r.IntN(p.MaxLen-p.MinLen+1)
 		in := DBInput{Profile: p.Name, Callers: p.Callers(r)}
